@@ -228,6 +228,10 @@ func (ex *Exec) freshVal(t types.Type, name string, st *State) Val {
 		c := ex.newCell(pt.Elem(), name)
 		fv := ex.freshVal(pt.Elem(), name+".val", st)
 		st.cells[c] = ex.pure(fv, pt.Elem(), st)
+		if fv.P != nil {
+			// pointer to a pointer (a captured pointer variable): remember where the inner pointer leads
+			ex.storeOpaque(&Ptr{Cell: c, NilT: "false"}, fv, st)
+		}
 		return Val{P: &Ptr{Cell: c, NilT: "false"}}
 	}
 	if tup, ok := t.(*types.Tuple); ok {
